@@ -128,7 +128,7 @@ def gen_sources(rng, n_sources, bsz, max_msgs=12, containers=("plain",), tie_hea
         off = rng.choice(world.OFFSETS_HOUR if notation == 3 else world.OFFSETS_ALL)
         if notation in (0, 6, 8):
             off = 0  # zone-less stamps are written in UTC and the run passes --tz-offset +00:00
-        prefix_len = rng.choice((0, 3, 12, 40, 150, 400)) if notation >= 4 else 0
+        prefix_len = rng.choice((0, 0, 0, 3, 12, 40, 150, 400)) if notation >= 4 else 0
         p = world.TextLogParams(notation=notation, off_min=off, vary_offset=rng.random() < 0.3,
                                 n_msgs=n, src_letter=letter, bsz=bsz if (rng.random() < 0.5 and bsz <= 4096) else 0,
                                 cont_p=rng.choice((0.0, 0.3, 0.6)), special=special,
@@ -222,6 +222,13 @@ def inflate_message(rng, src, style=None):
         target = rng.choice((2040, 2055, 2056, 2057, 2058, 2100, 5000, 9000))
         pad = max(0, target - (first_end + 1))
         new = data[:first_end] + b" " + world._body(rng, pad, 0) + data[first_end:]
+    elif style == "thousands_of_lines":
+        # a dump: far more continuation lines than any per-message limit a reader might think of (1030..3000 short lines)
+        extra = b"".join(b"  row " + world.fast_body(rng, rng.randint(1, 16)) + nl for _ in range(rng.choice((1030, 1500, 3000))))
+        if unterminated:
+            new = data + nl + extra[:-1]
+        else:
+            new = data[:first_end + 1] + extra + data[first_end + 1:]
     else:
         extra = b"".join(b"  at frame " + world._body(rng, rng.randint(20, 200), 0) + nl for _ in range(rng.randint(15, 60)))
         if unterminated:
